@@ -377,6 +377,16 @@ func RunSession(s Session, h *Hooks) mon.Result {
 	}
 	got := make([]string, 0, len(s.Cmds))
 	bad := func(key, f string, a ...interface{}) mon.Result {
+		if strings.HasPrefix(key, "c01/error:errTimeoutError") {
+			// "timed out" is a verdict only if the transport model had handed over everything the
+			// device generated (minus the held-back prompt space): otherwise the reader was merely
+			// slow (1-byte reads on a loaded machine) and the case says nothing
+			var gen int
+			conn.Do(func() { gen = conn.Generated() })
+			if conn.Delivered() < gen-1 {
+				return mon.Result{Verdict: mon.Inconclusive, Detail: fmt.Sprintf("timeout with %d of %d bytes delivered: reader slow (load)", conn.Delivered(), gen)}
+			}
+		}
 		return mon.Result{Verdict: mon.Violated, Key: key, Detail: fmt.Sprintf(f, a...), Events: tail(conn.Log(), 60), NonTrivial: true}
 	}
 	cmds := make([]string, len(s.Cmds))
